@@ -437,7 +437,13 @@ fn gen_udp(r: &mut Rng) -> UdpCase {
         let mut sc = vec![];
         let mut mine: Vec<u64> = vec![];
         let hostile = r.chance(1, 3);
-        for _ in 0..n {
+        // "k skipped-kind forgeries, then the genuine reply": k = 3 is the loop bound
+        let prefix: Option<usize> = if r.chance(1, 3) { Some(r.below(5) as usize) } else { None };
+        let n = match prefix {
+            Some(k) => k + 1 + r.below(2) as usize,
+            None => n,
+        };
+        for j in 0..n {
             let mut d = match r.below(6) {
                 0..=2 => 0,
                 3 => r.range(1, 50),
@@ -449,7 +455,11 @@ fn gen_udp(r: &mut Rng) -> UdpCase {
             }
             at += d;
             mine.push(at);
-            let kind = if hostile && r.chance(2, 3) { *r.pick(&KINDS[3..]) } else { *r.pick(KINDS) };
+            let kind = match prefix {
+                Some(k) if j < k => *r.pick(&["wrong-ip", "wrong-port", "wrong-id", "wrong-name", "wrong-type", "extra-question", "wrong-ip-garbage"]),
+                Some(k) if j == k => "genuine",
+                _ => if hostile && r.chance(2, 3) { *r.pick(&KINDS[3..]) } else { *r.pick(KINDS) },
+            };
             sc.push(gen_event(r, &c, kind, d));
         }
         used.extend(mine);
@@ -567,11 +577,12 @@ fn mux_block(r: &mut Rng, ctx: &mut Ctx, rec: &mut Recorder, serial: usize) {
         }
         _ => {
             let n = r.range(8, 40);
+            let mut over = false; // the script has shut the multiplexer down or closed the stream
             for _ in 0..n {
                 let have = next_k > 0;
                 let any = |r: &mut Rng| r.below(next_k.max(1) as u64);
                 match r.below(100) {
-                    0..=24 => send(ctx, rec, &mut next_k),
+                    0..=24 if !over || r.chance(1, 8) => send(ctx, rec, &mut next_k),
                     25..=49 if have => {
                         let cnt = match r.below(12) {
                             0 => r.range(2, 4),
@@ -590,8 +601,14 @@ fn mux_block(r: &mut Rng, ctx: &mut Ctx, rec: &mut Recorder, serial: usize) {
                         let dt = *r.pick(&[timeout / 3, timeout / 2 + 1, timeout, 1]);
                         exec(ctx, &format!("advance {dt}"), rec)
                     }
-                    97 => exec(ctx, if r.chance(1, 2) { "deliver c 1" } else { "deliver e 1" }, rec),
-                    98 => exec(ctx, "shutdown", rec),
+                    97 => {
+                        over = true;
+                        exec(ctx, if r.chance(1, 2) { "deliver c 1" } else { "deliver e 1" }, rec)
+                    }
+                    98 => {
+                        over = true;
+                        exec(ctx, "shutdown", rec)
+                    }
                     _ => exec(ctx, "poll", rec),
                 }
             }
